@@ -133,6 +133,16 @@ func (tl *store) applyFrom(tx stoabs.WriteTx, base *event, applyList []event) er
 		}
 	}
 
+	if base == nil {
+		// no earlier version to take the DID from: the first event was (re)applied. The DID can still be marked
+		// as conflicted, when its creation arrives after conflicting updates.
+		b, err := conflictedWriter.Get(stoabs.BytesKey(document.ID.String()))
+		if err != nil && !errors.Is(err, stoabs.ErrKeyNotFound) {
+			return err
+		}
+		conflicted = len(b) > 0
+	}
+
 	if metadata.isConflicted() {
 		if !conflicted {
 			conflictedCount++
